@@ -195,6 +195,13 @@ class Broker(object):
 
     def h_Channel_Close(self, ch, fr):
         self.channel_closes[ch] = self.channel_closes.get(ch, 0) + 1
+        if ch not in self.open_channels and getattr(self, 'strict_close', False):
+            # a method on a channel that is not open: CHANNEL_ERROR (504)
+            self.violations.append('Channel.Close on closed channel %d' % ch)
+            self.send(0, spec.Connection.Close(
+                reply_code=504, reply_text='CHANNEL_ERROR - expected \'channel.open\'',
+                class_id=20, method_id=40))
+            return
         self.open_channels.discard(ch)
         self.consumers.pop(ch, None)
         self.send(ch, spec.Channel.CloseOk())
